@@ -137,6 +137,18 @@ def case_split_file(c):
     pay = _payload(c['seed'], NINTS, nchans)
     wd = engine.workdir()
     path = os.path.join(wd, 'c19_src.fil')
+    # file-side history, made deterministic: the SAME path first holds another observation (more channels, other band and
+    # orientation), which is split once; then the file under test is written over it.  Whatever the library keeps per
+    # file name must describe the file that is on disk when it is asked.
+    try:
+        hdr0 = S.default_header(nchans + 3, fch1 + 7.0, -foff, TSAMP, tstart=TSTART, source_name='OLDFILE')
+        S.write_fil(path, hdr0, _payload(c['seed'] + 1, NINTS + 2, nchans + 3))
+        with contextlib.redirect_stdout(io.StringIO()):
+            list(stg.split_waterfall_generator(path, 2))
+            stg.get_mean_distribution(path, 2)
+            stg.get_fs(path); stg.get_ts(path)
+    except Exception:
+        pass
     S.write_fil(path, hdr, pay)
     nontriv, outcomes = [], set()
     cnt = {'generator_runs': 0, 'pieces': 0, 'split_fil_runs': 0, 'files_written': 0, 'distribution_runs': 0,
